@@ -21,7 +21,16 @@
    fixes none), then the watch event of every cluster operation - and [i_seen] records what
    was seen of each delivery on the informer itself: the handler that ran (from the informer's
    Added/Modified/Deleted counters) and the resource id concerned (the cache entry that was
-   replaced or removed). *)
+   replaced or removed).
+
+   The declaration.  [k_types] is the key executeHookOnEvent and [k_watch] the deprecated key
+   watchEvent of the binding (None = key absent).  [k_loaded] = true ("declared" cases): the
+   harness wrote the binding as a v1 hook configuration TEXT (JSON or YAML) and the REAL loader
+   (HookConfig.LoadAndValidate -> HookConfigV1.ConvertAndCheck) produced the MonitorConfig the
+   monitor runs with; [k_eff] is the MonitorConfig.EventTypes it produced.  [k_loaded] = false:
+   the harness built the MonitorConfig itself with WithEventTypes(k_types) - no watchEvent,
+   no loader.  Either way the model's configuration is [effective_types] of the declaration
+   and the specification judges against the DECLARED list ([P_decl]). *)
 From Verif Require Import Common Json C08_Model C08_Spec.
 
 (* implementation's observation of one delivery *)
@@ -38,7 +47,10 @@ Record iobs := mkI {
 Inductive form := FObject | FTombstone.
 
 Record case := mkCase {
-  k_types : option (list evtype);
+  k_types : option (list evtype);      (* executeHookOnEvent (None = not configured) *)
+  k_watch : option (list evtype);      (* watchEvent, the deprecated key (None = absent) *)
+  k_loaded : bool;                     (* the MonitorConfig comes from the real loader run on a config text *)
+  k_eff : option (list evtype);        (* loaded cases: MonitorConfig.EventTypes as the loader left it *)
   k_filter : bool;
   k_states : list (N * json);
   k_answers : list (list json * bool);
@@ -79,7 +91,15 @@ Definition steps_of (c : case) : list dstep :=
 (* the changes the deliveries report: what the specification speaks of *)
 Definition changes_of (c : case) : list step := map change_of (steps_of c).
 
-Definition config_of (c : case) : config := mkConfig (with_event_types (k_types c)) (k_filter c).
+Definition decl_of (c : case) : decl := mkDecl (k_types c) (k_watch c).
+
+Definition config_of (c : case) : config := mkConfig (effective_types (decl_of c)) (k_filter c).
+
+(* what the real loader made of the declaration: compared with the model's conversion *)
+Definition eff_ok (c : case) : bool :=
+  option_eqb (list_eqb evtype_eqb) (k_eff c)
+             (if k_loaded c then Some (effective_types (decl_of c)) else None)
+  && (k_loaded c || match k_watch c with None => true | Some _ => false end).
 
 (* the objects loadExistedObjects lists *)
 Definition listed_of (c : case) : list (N * json) := map (state_at c) (k_listed c).
@@ -159,7 +179,7 @@ Definition cache0_eqb : option (list (N * N)) -> option (list (N * N)) -> bool :
 
 Definition agrees (c : case) : bool :=
   cache0_eqb (model_cache0 c) (k_cache0 c)
-  && list_eqb iobs_eqb (model_obs c) (k_obs c) && answers_canonical c && replay_ok c.
+  && list_eqb iobs_eqb (model_obs c) (k_obs c) && answers_canonical c && replay_ok c && eff_ok c.
 
 Definition mismatches (cs : list case) : list N := indices_where (fun c => negb (agrees c)) cs.
 
@@ -168,10 +188,10 @@ Definition spec_obs (c : case) (o : iobs) : obs :=
   mkObs (map fst (i_fired o)) (map (fun p => (fst p, snd (state_at c (snd p)))) (i_cache o)).
 
 (* the objects that exist when the binding is enabled are known from the initial list on
-   ([P_start]; without such objects it is [P]) *)
+   ([P_start]; without such objects it is [P]); the event list is the DECLARED one ([P_decl]) *)
 Definition P_case (c : case) : bool :=
-  P_start (jq_of c) (with_event_types (k_types c)) (k_filter c) (listed_of c) (changes_of c)
-          (map (spec_obs c) (k_obs c)).
+  P_decl (jq_of c) (decl_of c) (k_filter c) (listed_of c) (changes_of c)
+         (map (spec_obs c) (k_obs c)).
 
 Definition spec_violations (cs : list case) : list N := indices_where (fun c => negb (P_case c)) cs.
 
